@@ -221,6 +221,12 @@ func (a Alloc) frame() (pre []byte, msg []byte, delivered int) {
 	case "copy-field-length":
 		body := append([]byte("PGCOPY\n\377\r\n\x00\x00\x00\x00\x00\x00\x00\x00\x00\x00\x01"), be32(a.N)...)
 		return pgwire.Query("copy"), pgwire.CopyData(body), len(body)
+	case "copy-field-length-2msgs": // the huge field is announced in one CopyData, the stream continues in the next
+		body := append([]byte("PGCOPY\n\377\r\n\x00\x00\x00\x00\x00\x00\x00\x00\x00\x00\x01"), be32(a.N)...)
+		return pgwire.Query("copy"), append(pgwire.CopyData(body), pgwire.CopyData([]byte("xy"))...), len(body) + 2
+	case "copy-ext-length-2msgs": // huge header extension length, stream continues in the next CopyData
+		body := append([]byte("PGCOPY\n\377\r\n\x00\x00\x00\x00\x00"), be32(a.N)...)
+		return pgwire.Query("copy"), append(pgwire.CopyData(body), pgwire.CopyData([]byte("xy"))...), len(body) + 2
 	case "frame-length": // frame declaring N bytes, 4 delivered
 		return nil, pgwire.RawFrame('Q', a.N, []byte("abcd")), 4
 	case "parse-parameters-index": // handler applies ParseParameters to "$N"
